@@ -2765,6 +2765,8 @@ def _kmer_iter_e2e(F, rep, rule, cont):
                                 else:
                                     rep.violated(rule, key + "/size_hint", "size_hint of a fresh iterator over %d k-mers is %r" % (cnt, r))
                             guarded(rep, rule, key + "/size_hint", "size_hint", f_sh)
+                        elif m in ("fold", "for_each", "count", "last"):
+                            pass        # decided differentially against next(), from every cursor, by dt_seq.kmer_iter_override_table
                         else:
                             rep.inconclusive(rule, key + "/" + m, "the iterator overrides Iterator::%s; no lemma relates it to next()" % m)
 
